@@ -979,7 +979,7 @@ package cose
 //@ func decodeBytes
 //@   requires hashable: any_hashable(lbl)
 //@   ensures fun [C06, C14, C15]: b == ((lbl in dic && any_isbytes(dic[lbl])) ? anybytes(dic[lbl]) : nil) && (err == nil <==> !(lbl in dic) || any_isbytes(dic[lbl]))
-//@   ensures okflag: ok ==> lbl in dic
+//@   ensures okflag: ok <==> (lbl in dic && any_isbytes(dic[lbl]))
 //@   modifies frame [C18]: nothing
 
 //@ func decodeInt
@@ -1214,3 +1214,56 @@ package cose
 //@   loop 2 invariant params_copied [C15]: forall q any :: q in seen ==> q in k.Params && ((q is int64 && q.(int64) == -1 && (k.Type == 2 || k.Type == 1)) ? (k.Params[q] is Curve && ranged[q] is int64 && k.Params[q].(Curve) == ranged[q].(int64)) : k.Params[q] == ranged[q])
 //@   loop 2 invariant tmp_kept: mapdom(ranged) == entry(mapdom(ranged)) && mapval(ranged) == entry(mapval(ranged)) && ranged != k.Params
 //@   loop 2 invariant fields_kept: k.Type == entry(k.Type) && k.ID == entry(k.ID) && k.Algorithm == entry(k.Algorithm) && k.Ops == entry(k.Ops) && k.BaseIV == entry(k.BaseIV) && k.Params == entry(k.Params)
+
+// ===================================================================
+// remaining entry points: preconditions for panic freedom (C06) and frames (C18)
+// ===================================================================
+
+//@ func (*Countersignature).toBeSigned
+//@   requires ok: s != nil && parentOK(target)
+//@   ensures out [C10, C20]: (err == nil ==> fresh(result) && len(result) > 0 && isParent(target)) && (err != nil ==> result == nil)
+//@   ensures fun [C10]: err == nil ==> bytes(result) == old(tbsFor(false, target, ProtBytes(s.Headers), external))
+//@   modifies frame [C18]: nothing
+
+//@ func (*Key).ParamBytes
+//@   requires ok: k != nil && any_hashable(label)
+//@   ensures fun: result0 == ((label in k.Params && any_isbytes(k.Params[label])) ? anybytes(k.Params[label]) : nil) && (result1 <==> label in k.Params && any_isbytes(k.Params[label]))
+//@   modifies frame [C18]: nothing
+//@ func (*Key).ParamInt
+//@   requires ok: k != nil && any_hashable(label)
+//@   ensures fun: result0 == ((label in k.Params && any_canint(k.Params[label])) ? any_intval(k.Params[label]) : 0) && (result1 <==> label in k.Params && any_canint(k.Params[label]))
+//@   modifies frame [C18]: nothing
+//@ func (*Key).ParamUint
+//@   requires ok: k != nil && any_hashable(label)
+//@   modifies frame [C18]: nothing
+//@ func (*Key).ParamString
+//@   requires ok: k != nil && any_hashable(label)
+//@   modifies frame [C18]: nothing
+//@ func (*Key).ParamBool
+//@   requires ok: k != nil && any_hashable(label)
+//@   modifies frame [C18]: nothing
+
+//@ func (*headerLabelValidator).UnmarshalCBOR
+//@   requires nonnil: hlv != nil
+//@   ensures kinds [C05, C13]: result == nil ==> len(data) > 0 && (b_major(bytes(data)) == 0 || b_major(bytes(data)) == 1 || b_major(bytes(data)) == 3)
+//@         && dec_shape_err(decMode, bytes(data), "any") == nil
+//@   modifies frame [C18]: hlv.value
+
+//@ func (ProtectedHeader).SetAlgorithm
+//@   requires nonnil: h != nil
+//@   ensures set [C04]: int64(1) in asmap(h) && asmap(h)[int64(1)] == Algorithm(alg)
+//@   ensures rest_kept [C04]: forall q any :: q != int64(1) ==> ((q in asmap(h)) <==> old(q in asmap(h))) && asmap(h)[q] == old(asmap(h)[q])
+//@   ensures len_kept: len(h) >= old(len(h))
+//@   modifies frame [C18]: mapof(asmap(h))
+
+//@ func (ProtectedHeader).SetType
+//@   requires nonnil: h != nil
+//@   modifies frame [C18]: mapof(asmap(h))
+
+//@ func (ProtectedHeader).SetCWTClaims
+//@   requires nonnil: h != nil
+//@   modifies frame [C18]: mapof(asmap(h))
+
+//@ func (ProtectedHeader).Critical
+//@   ensures ok [C06, C13]: result1 == nil && has(asmap(h), 2) ==> result0 != nil
+//@   modifies frame [C18]: nothing
